@@ -67,13 +67,28 @@ theorem registered_is_chain (mac : MacFn) (net : Net) (core : Bool) (s : PSeg)
     (∃ last, s.entries.getLast? = some last ∧ last.hop.cEg = 0) ∧
     2 ≤ s.entries.length := registered_chain mac net core s h
 
-/-- stages 2 (`xover_accepted`) and 3 (`peering_accepted`) — segment changes at a common AS,
-    child–child shortcuts, peering shortcuts — are stated by `C02_full` and covered by the tie to
-    the real routers (thousands of such paths per run, see the engine's shape histogram); their
-    proofs are not finished: the run lemmas `run_transits`, `down_tail_run`, `up_tail_run` are
-    already generic in the segments before/after the current one, what is missing is the
-    cross-over step between them. -/
-def xover_and_peering_open : Prop := C02_full
+/-- **Stage 2, up segment + down segment** joined at a common AS (the core AS both start from, or —
+    child–child shortcut — any AS below it that both pass through), one border router per AS.
+    At the joint AS one router validates the last hop of the up segment (SegID after the ingress
+    update = β of that hop) and the first hop of the down segment (SegID = `calculateBeta` of the
+    down edge), checks the link-type pair and forwards; from there the down segment's induction
+    takes over. -/
+theorem xover_accepted_partial (mac : MacFn) (net : Net) (now : Nat)
+    (hWF : WFNet net) (hUp : AllUp net) (hSR : SingleRouter net)
+    (eu ed : Edge) (src dst : Nat) (c : Cursor)
+    (hud : eu.down = false) (huc : eu.core = false) (hup : eu.peer = none)
+    (hdd : ed.down = true) (hdc : ed.core = false) (hdp : ed.peer = none)
+    (hJ : Joinable mac net [eu, ed] src dst) (hp : pathOf [eu, ed] = some c)
+    (hexp : Unexpired now c) :
+    ∃ cf, send mac net now src dst c = .delivered dst (pathIfaces [eu, ed]) cf :=
+  xover_up_down mac net now src dst hWF hUp hSR eu ed c hud huc hup hdd hdc hdp hJ hp hexp
+
+/-- What is still open (stated by `C02_full`, tied by the engine, not proved): segment changes
+    involving a core segment (up+core, core+down, up+core+down — the run lemmas `run_transits`,
+    `xover_step`, `down_tail_run`, `up_tail_run` are already generic in the segments before and
+    after, the two-/three-edge glue is missing), stage 3 `peering_accepted` (the peering hop step
+    is not written), and several border routers per AS. -/
+def remaining_stages : Prop := C02_full
 
 /-! Non-vacuity: a two-AS network (core 1 with child 2), the beacon 1→2 with the identity-like MAC
 `fun _ inp => inp.length`; the down path is delivered by `send`. -/
